@@ -91,9 +91,11 @@ def o_frame(code_seq, s, minus, k):
     return o_translate(code_seq, (o_rc(s) if minus else s)[k:])
 
 
-def o_get_translation(code_seq, s, incomplete_ok, include_stop, trim_stop):
-    """pep or None (= rejected)"""
-    if trim_stop and not incomplete_ok and len(s) % 3:
+def o_get_translation(code_seq, s, incomplete_ok, include_stop, trim_stop, strict_length=True):
+    """pep or None (= rejected).  `strict_length`: a length that is not a multiple of three is rejected when a
+    terminal stop is to be trimmed and incomplete_ok is False (what the Lean spec says; the property itself does
+    not demand it, so the judge below accepts either outcome there)"""
+    if strict_length and trim_stop and not incomplete_ok and len(s) % 3:
         return None
     p = o_translate(code_seq, s)
     if trim_stop and len(s) % 3 == 0 and p.endswith("*"):
@@ -380,12 +382,40 @@ def correspondence(ctx):
             reqs.append(("sixframes", dict(impl="old", code=code, s=s)))
             reals.append(real_sixframes("old", code, s))
             meta.append(("old.sixframes", n, True))
-    for (cmd, rq), real, mod, (ep, n, rc) in zip(reqs, reals, drv.batch(reqs), meta):
+    mods = drv.batch(reqs)
+    # for minus-strand cases that differ from the model of the code as written: what the SPEC reading
+    # (plus-strand model on the explicit reverse complement) would give, so a repaired tree is recognised
+    alt = {}
+    alt_reqs = []
+    for idx, ((cmd, rq), real, mod, (ep, n, rc)) in enumerate(zip(reqs, reals, mods, meta)):
+        if real != mod and ep == "new.translate" and rq["rc"] and len(rq["s"]) < 700:
+            alt_reqs.append((idx, ("translate", dict(rq, s=_rc_ext(rq["s"]), rc=False))))
+    for (idx, _), rep in zip(alt_reqs, drv.batch([r for _, r in alt_reqs])):
+        alt[idx] = rep
+    for idx, ((cmd, rq), real, mod, (ep, n, rc)) in enumerate(zip(reqs, reals, mods, meta)):
+        if idx in alt and real == alt[idx]:
+            bump(out, "impl_matches_spec_but_not_model", ep)
+            out["evaluations"] += 1
+            continue
+        if ep == "new.sixframes" and real != mod and not isinstance(real, dict) and len(rq["s"]) < 700:
+            # six frames = the individually checked translate calls
+            per = [real_translate("new", rq["code"], rq["s"], k, m) for m in (False, True) for k in range(3)]
+            if [x[2] for x in real] == per:
+                bump(out, "impl_matches_spec_but_not_model", ep)
+                out["evaluations"] += 1
+                continue
         out["evaluations"] += 1
         bump(out, "entry_point", ep)
         bump(out, "len_mod_3", n % 3)
         bump(out, "len_bucket", "0-2" if n < 3 else "3-40" if n <= 40 else "41-100" if n <= 100 else ">=762")
-        if real != mod:
+        if real != mod and _matches_spec(ep, rq, real):
+            # the implementation does what the SPEC says where the as-written model does not (a repaired tree):
+            # not a mismatch to search for, but the _partial/_counter theorems then describe the old behaviour
+            bump(out, "impl_matches_spec_but_not_model", ep)
+            if not any("matches the specification where the model" in x for x in ctx.notes):
+                ctx.notes.append(f"{ep}: the implementation matches the specification where the model of the code as written does not "
+                                 "(repaired tree?); the _partial/_counter theorems describe the previous behaviour")
+        elif real != mod:
             small = dict(rq, s=rq["s"] if len(rq["s"]) <= 60 else f"{rq['s'][:30]}…({len(rq['s'])} nt)")
             add_failure(out, "corr", f"{ep} differs from the model", small, _short(mod), _short(real), confirmed=False)
         elif real:
@@ -404,7 +434,8 @@ def correspondence(ctx):
         s = _rand_seq(rng, n, "stops")
         if rng.random() < 0.4 and n >= 3 and n % 3 == 0:
             stops = [c for c, a in _oracle_table(_code_seqs()[code]).items() if a == "*"]
-            s = s[:-3] + rng.choice(stops)
+            if stops:
+                s = s[:-3] + rng.choice(stops)
         for io, is_, ts in flags:
             for impl in ("old", "new"):
                 reqs.append(("seqtr", dict(impl=impl, code=code, s=s, incomplete_ok=io, include_stop=is_, trim_stop=ts)))
@@ -476,6 +507,24 @@ def correspondence(ctx):
     return out
 
 
+def _matches_spec(ep, rq, real):
+    s = rq["s"]
+    if not set(s) <= set(BASES) or isinstance(real, dict):
+        return False
+    cs = _code_seqs("new_codes" if ep.startswith("new") else "old_codes")[rq["code"]]
+    if ep.startswith("new.translate"):
+        return real == o_frame(cs, s, rq["rc"], rq["start"])
+    if ep == "new.sixframes":
+        return real == [["-" if m else "+", f, o_frame(cs, s, m, f)] for m in (False, True) for f in range(3)]
+    return False
+
+
+def _rc_ext(s):
+    """reverse complement of a string that may contain gap / ambiguity / other characters (only ACGT are complemented;
+    every other character makes its codon X or - on either strand)"""
+    return s.translate(str.maketrans("ACGT", "TGCA"))[::-1]
+
+
 def _short(x):
     if isinstance(x, str) and len(x) > 80:
         return f"{x[:40]}…({len(x)} chars)"
@@ -518,12 +567,26 @@ def check_case(case):
             cls = "relabelled-frame"
         elif rc and got == o_translate(cs, o_rc(s[start : start + 3 * ((n - start) // 3)])):
             cls = "rc-of-truncated-slice"
-        elif (n - start) // 3 >= 256 and got in _interleaved(want, [cs[0]]):
+        elif (n - start) // 3 >= 256 and not rc and got in _interleaved(want, [cs[0]]):
             cls = "wide-index-interleaved"
-        elif (n - start) // 3 >= 256 and rc and start < 3 and got in [x[::-1] for x in _interleaved(o_frame(cs, s, True, (n - start) % 3)[::-1], [cs[-1], cs[0]])]:
+        elif (n - start) // 3 >= 256 and rc and got in ["".join(_oracle_table(cs)["AAA"] * (w - 1) + c for c in want) for w in (2, 4, 8)]:
+            cls = "wide-index-interleaved"
+        elif (n - start) // 3 >= 256 and rc and start < 3 and got in [
+            "".join(tbl_aaa * (w - 1) + c for c in o_frame(cs, s, True, (n - start) % 3)) for w in (2, 4, 8) for tbl_aaa in [_oracle_table(cs)["AAA"]]
+        ]:
             cls = "wide-index-interleaved+relabelled-frame"
         return dict(what=f"{impl} GeneticCode.translate(start={start}, rc={rc}) is not the table mapped over the codons of the {'reverse complement' if rc else 'sequence'}",
                     expected=_short(want), got=_short(got), sig=f"{impl}.gc.translate:{strand}:{cls}")
+    if k == "codes_agree":
+        # the two genetic-code modules answer alike for all 64 codons of a code present in both
+        code = case["code"]
+        s = "".join(_codons())
+        a, b = real_translate("old", code, s, 0), real_translate("new", code, s, 0)
+        if a == b and _ogc(code).name == _ngc(code).name and sorted(_ogc(code).start_codons) == sorted(_ngc(code).start_codons):
+            return None
+        j = next((i for i in range(64) if a[i : i + 1] != b[i : i + 1]), None) if isinstance(a, str) and isinstance(b, str) else None
+        return dict(what=f"old and new genetic code {code} differ" + (f" at codon {_codons()[j]}" if j is not None else " (name / start codons)"),
+                    expected=a, got=b, sig="codes-disagree:old-vs-new")
     if k == "gc.sixframes":
         impl, code, s = case["impl"], case["code"], case["s"]
         cs = (cs_new if impl == "new" else cs_old)[code]
@@ -542,24 +605,32 @@ def check_case(case):
         elif impl == "new":
             n = len(s)
             relabel = [["-" if m else "+", f, o_frame(cs, s, m, (n - f) % 3 if m else f)] for m in (False, True) for f in range(3)]
+            aaa = _oracle_table(cs)["AAA"]
+
+            def wide(t, k, m):
+                c = (n - k) // 3
+                w = 1 if c < 256 else 2 if c < 65536 else 4
+                return "".join((aaa * (w - 1) + a) if m else (a + cs[0] * (w - 1)) for a in t)
+
             if got == relabel:
                 cls = "minus-frames-relabelled"
-            elif n // 3 >= 255:
-                cls = "wide-index"
+            elif n // 3 >= 256 and got == [[st, f, wide(t, f, st == "-")] for st, f, t in relabel]:
+                cls = "minus-frames-relabelled+wide-index-interleaved"
         return dict(what=f"{impl} GeneticCode.sixframes differs from the six frames of the sequence and its reverse complement",
                     expected=_short(want), got=_short(got), sig=f"{impl}.gc.sixframes:{cls}")
     if k == "seq.get_translation":
         impl, code, s = case["impl"], case["code"], case["s"]
         io, is_, ts = case["incomplete_ok"], case["include_stop"], case["trim_stop"]
         cs = (cs_new if impl == "new" else cs_old)[code]
-        want = o_get_translation(cs, s, io, is_, ts)
+        want = o_get_translation(cs, s, io, is_, ts, strict_length=False)
         got = real_seq_tr(impl, code, s, io, is_, ts, case.get("moltype", "dna"), case.get("via_rc", False))
-        return _judge_tr(f"{impl}.seq.get_translation", case, cs, [s], [want], [got] if not isinstance(got, dict) else got)
+        mt = case.get("moltype", "dna")
+        return _judge_tr(f"{impl}.seq.get_translation[{mt}]", case, cs, [s], [want], [got] if not isinstance(got, dict) else got)
     if k == "coll.get_translation":
         ep, code, seqs = case["entry"], case["code"], case["seqs"]
         io, is_, ts = case["incomplete_ok"], case["include_stop"], case["trim_stop"]
         cs = cs_old[code] if not ep.startswith("new") else cs_new[code]
-        wants = [o_get_translation(cs, s, io, is_, ts) for s in seqs]
+        wants = [o_get_translation(cs, s, io, is_, ts, strict_length=False) for s in seqs]
         got = real_coll_tr(ep, code, seqs, io, is_, ts)
         return _judge_tr(ep, case, cs, seqs, wants, got)
     if k == "app.translate_frames":
@@ -629,12 +700,16 @@ def _judge_tr(ep, case, cs, seqs, wants, got):
     opts = f"is={int(is_)},ts={int(ts)}"
     aligned = "Alignment" in ep
     rejected = any(w is None for w in wants)
+    strict_len = ts and not io and any(len(s) % 3 for s in seqs)
     if isinstance(got, dict):
-        if rejected and got["err"] in ("AlphabetError", "ValueError"):
-            return None
-        if not seqs or all(len(s) == 0 for s in seqs):
-            return None  # empty sequences: construction / codon look-up errors are outside the property
+        if (rejected or strict_len) and got["err"] in ("AlphabetError", "ValueError"):
+            return None  # rejected as requested (or: length not divisible by 3 with incomplete_ok=False)
+        if not seqs or all(len(s) == 0 for s in seqs) or all((w or "") == "" for w in wants):
+            return None  # empty sequences / empty translations: construction and codon look-up errors on the
+            # empty string are outside the property
         cls = "raises:" + got["err"]
+        if aligned and got["err"] == "AlphabetError" and not ts and not io and any(len(s) % 3 for s in seqs) and not rejected:
+            cls = "length-rejected-although-trim_stop=False"
         want = wants
     else:
         want = wants
@@ -671,6 +746,8 @@ def _cases(ctx, rng, budget):
     old_ids = sorted(_code_seqs("old_codes"))
     both = [i for i in ids if i in old_ids]
     flags = list(itertools.product([False, True], repeat=3))
+    for code in both:
+        yield dict(kind="codes_agree", code=code)
     # exhaustive small part: every code, one sequence per length mod 3, all frames and strands
     for code in ids:
         for n in (9, 10, 11):
@@ -714,7 +791,8 @@ def _cases(ctx, rng, budget):
         s = _rand_seq(rng, n, "stops" if rng.random() < 0.6 else "canon")
         if rng.random() < 0.5 and n % 3 == 0:
             stops = [c for c, a in _oracle_table(_code_seqs()[code]).items() if a == "*"]
-            s = s[:-3] + rng.choice(stops)
+            if stops:
+                s = s[:-3] + rng.choice(stops)
         io, is_, ts = rng.choice(flags)
         for impl in ("old", "new"):
             yield dict(kind="seq.get_translation", impl=impl, code=code, s=s, incomplete_ok=io, include_stop=is_, trim_stop=ts,
@@ -723,7 +801,7 @@ def _cases(ctx, rng, budget):
     for _ in range(25 * budget):
         code = rng.choice(both)
         n = rng.choice([6, 9, 12]) if rng.random() < 0.7 else rng.randint(3, 14)
-        stops = [c for c, a in _oracle_table(_code_seqs()[code]).items() if a == "*"]
+        stops = [c for c, a in _oracle_table(_code_seqs()[code]).items() if a == "*"] or ["GCT"]
         mode = rng.choice(["nostop", "allterminal", "mixed", "internal"])
         seqs = []
         for j in range(rng.randint(1, 3)):
@@ -768,6 +846,7 @@ def spec_check(ctx, budget):
         "non-trivial = distinct cases with a non-empty expected result"
     )
     rng = ctx.subrng(f"spec{budget}")
+    per_sig = {}
     for case in _cases(ctx, rng, budget):
         out["evaluations"] += 1
         ep = case.get("entry") or (f"{case.get('impl', '')}.{case['kind']}" if "impl" in case else f"{case.get('mt', '')}.{case['kind']}")
@@ -780,18 +859,15 @@ def spec_check(ctx, budget):
             res = dict(what=f"check raised {type(e).__name__}: {e}", expected=None, got=None, sig=f"harness:{case['kind']}:{type(e).__name__}")
         key = tuple(sorted((k, str(v)) for k, v in case.items()))
         if res is None:
-            if any(case.get(k) for k in ("s", "seqs", "sym", "set")):
+            if any(case.get(k) for k in ("s", "seqs", "sym", "set")) or case["kind"] == "codes_agree":
                 out["nontrivial"].add(key)
             if len(out["samples"]) < 6 and case["kind"] in ("gc.sixframes", "coll.get_translation") and len(str(case)) < 300:
                 out["samples"].append(case)
             continue
-        small = {k: (_short(v) if isinstance(v, str) else v) for k, v in case.items()}
-        if isinstance(case.get("s"), str) and len(case["s"]) > 80:
-            small["s_full_len"] = len(case["s"])
-            small["s_seed"] = None
-            small["s"] = case["s"]
-        add_failure(out, "spec", res["what"], case, res["expected"], res["got"], confirmed=True, sig=res["sig"])
         bump(out, "spec_failure_sigs", res["sig"])
+        per_sig[res["sig"]] = per_sig.get(res["sig"], 0) + 1
+        if per_sig[res["sig"]] <= 3:  # keep a few inputs of every class so that no class is crowded out
+            add_failure(out, "spec", res["what"], case, res["expected"], res["got"], confirmed=True, sig=res["sig"])
     return out
 
 
